@@ -2347,7 +2347,11 @@ def c18(ctx):
         for host in ("lit4", "name"):
             for form in ("origin", "malformed"):
                 for ngood in (1, 2):
-                    for cuts in ([], [[60, 0]], [[87, 0]], [[87, 50000]], [[200, 0]], [[1, 0], [1, 0]]):
+                    # (the cuts with a long pause let the upstream connection be established by the first request, so that
+                    # the next good request is written upstream in the very handler that then meets the bad one)
+                    for cuts in ([], [[60, 0]], [[87, 0]], [[87, 50000]], [[200, 0]], [[1, 0], [1, 0]],
+                                 [[86, 0], [1000, 400000]], [[100, 0], [1000, 400000]], [[120, 0], [1000, 400000]],
+                                 [[150, 0], [1000, 400000]], [[90, 0], [60, 400000], [1000, 0]]):
                         for delay in (1000, 2000000):
                             reqs = [{"host": host, "port": 8080, "method": "POST" if ngood == 2 else "GET"} for _ in range(ngood)]
                             reqs.append({"host": host, "port": 8080, "form": form})
